@@ -49,7 +49,9 @@ def range_cfg(draw, n, narrow=False, allow_conf=True, allow_uuids=False, n_gt=0)
 
 
 @st.composite
-def manager_cases(draw, tier="quick", tasks=("detection", "tracking", "fp_validation"), max_frames=3, frames_fixed=None, allow_map=True, max_obj=None):
+def manager_cases(draw, tier="quick", tasks=("detection", "tracking", "fp_validation"), max_frames=3, frames_fixed=None, allow_map=True, max_obj=None, crowded=False):
+    """crowded=True: every frame contains two side-by-side annotations (same label / size / heading / height, centres
+    < 1 m apart) with an estimate on one of them, and the ego sits at map coordinates of 5e4..1e5 m."""
     big = tier == "thorough"
     task = draw(st.sampled_from([t for t in tasks for _ in range(1 if t == "fp_validation" else 2)]))
     targets = draw(st.lists(st.sampled_from(GEN.TARGETS), min_size=1, max_size=3, unique=True))
@@ -81,8 +83,13 @@ def manager_cases(draw, tier="quick", tasks=("detection", "tracking", "fp_valida
                 spacing=draw(st.sampled_from([5.0, 8.0])),
                 R=4,
                 gt_label_mix=("t", "t", "t", "t", "t", "t", "t", "nt", "fp", "unk"),
+                twins="always" if crowded else True,
             )
         )
+        if crowded and sc["gt"]:
+            # an estimate sitting on the LAST ground truth (the added twin) so that exactly one of the two neighbours is matched
+            g = sc["gt"][-1]
+            sc["est"].append({"p": [g["p"][0] + 0.05, g["p"][1] - 0.03, g["p"][2]], "yaw": g["yaw"], "qs": 1, "size": list(g["size"]), "label": g["label"] if g["label"] != "false_positive" else targets[0], "score": 0.987654, "uuid": f"e{len(sc['est'])}"})
         if task == "fp_validation":
             for g in sc["gt"]:
                 g["label"] = "false_positive"
@@ -98,7 +105,10 @@ def manager_cases(draw, tier="quick", tasks=("detection", "tracking", "fp_valida
             e["score"] = min(0.99999, e["score"] + fi * 1.3e-6)  # keeps confidences distinct across frames, too
         if crit.get("uuids"):
             crit["uuids"] = [f"g{fi}_{u[1:]}" for u in crit["uuids"]]
-        frames.append({"ego": draw(GEN.ego_poses()), "gt": sc["gt"], "est": sc["est"], "crit": crit, "pf": pf})
+        ego = draw(GEN.ego_poses())
+        if crowded:
+            ego = [draw(st.sampled_from([1, -1])) * draw(GEN.fl(5e4, 1e5)), draw(st.sampled_from([1, -1])) * draw(GEN.fl(5e4, 1e5)), ego[2]]
+        frames.append({"ego": ego, "gt": sc["gt"], "est": sc["est"], "crit": crit, "pf": pf})
     return {
         "task": task,
         "frame": frame,
@@ -512,8 +522,10 @@ def manager_cases2d(draw, tier="quick", tasks=("detection2d", "tracking2d", "fp_
                 g["label"] = "false_positive"
         for g in sc["gt"]:
             g["uuid"] = f"g{fi}_{g['uuid'][1:]}"
+            g.pop("pos", None)  # positioned ROI objects need camera->base_link transforms in the frame; not modelled here
         for e in sc["est"]:
             e["uuid"] = f"e{fi}_{e['uuid'][1:]}"
+            e.pop("pos", None)
         crit = {"conf": draw(st.one_of(st.none(), GEN.per_label(n, st.sampled_from([0.0, 0.3, 0.6])))), "uuids": None}
         if sc["gt"] and draw(st.integers(0, 5)) == 0:
             crit["uuids"] = sorted({sc["gt"][draw(st.integers(0, len(sc["gt"]) - 1))]["uuid"] for _ in range(draw(st.integers(1, 3)))})
